@@ -6,7 +6,7 @@
 (* never hides the rest of the trace.  One line is printed per event that  *)
 (* is not explained by the ideal specification.                            *)
 (***************************************************************************)
-EXTENDS Deviations, PushParser, Json, IOUtils
+EXTENDS Deviations, PushParser, PushCost, Json, IOUtils
 
 Rec == ndJsonDeserialize(IOEnv.TRACE)
 
@@ -184,8 +184,28 @@ JudgePrint(e, pre) ==
 VARIABLES l, cur, chain, taint
 vars == <<l, cur, chain, taint>>
 
+\* C15: the supervised, unguarded replay of the cost model's cases
+JudgeCost(e, pre) ==
+  LET subj == Subject(pre, e.act)
+      how  == IF Crashed(e) THEN e.post.crash ELSE "ok"
+  IN IF e.predict = "unbounded"
+     THEN [Blank("dev", subj) EXCEPT !.dev = "F-ALLOC-" \o subj, !.owner = "C15", !.msg = how]
+     ELSE IF how \in {"abort", "timeout"}
+     THEN Verdict("mismatch", subj, "C15", <<>>, "the cost model bounds this step by the state size, but the process ended with " \o how)
+     ELSE IF how = "panic" THEN Verdict("crash", subj, Owner(subj), <<>>, e.post.msg)
+     ELSE Blank("ok", subj)
+JudgeGrow(e, pre) ==
+  IF Crashed(e) THEN Verdict("crash", "grow", "C15", <<>>, e.post.msg)
+  ELSE IF e.ret.max_points > pre.cfg.max_prog_points
+  THEN [Blank("dev", "grow") EXCEPT !.dev = "F-MAXPOINTS", !.owner = "C15", !.msg = ToString(e.ret.max_points) \o " points after " \o ToString(e.ret.steps) \o " steps"]
+  ELSE IF e.ret.max_name > 64 * (StateCells(pre) + 1000)
+  THEN [Blank("dev", "grow") EXCEPT !.dev = "F-NAMECAT-GROWTH", !.owner = "C15", !.msg = ToString(e.ret.max_name) \o " characters after " \o ToString(e.ret.steps) \o " steps"]
+  ELSE Blank("ok", "grow")
+
 Judge(e, pre) ==
   CASE HasF(e, "envelope") -> Blank("envelope", e.envelope)
+    [] HasF(e, "predict") -> JudgeCost(e, pre)
+    [] e.act.a = "grow" -> JudgeGrow(e, pre)
     [] e.act.a = "step" -> JudgeStepT(e, pre)
     [] e.act.a = "copy_to_code" -> JudgeCopy(e, pre)
     [] e.act.a = "parse" -> JudgeParse(e, pre)
@@ -209,8 +229,8 @@ Consume ==
          j   == Judge(e, pre)
          keeps == e.act.a \in {"end", "run_from_start", "roundtrip", "print"}     \* events that do not advance the chain
      IN /\ ((j.v # "ok" \/ j.frame # <<>>) => PrintT("EV " \o ToJson([l |-> l, id |-> e.id, i |-> e.i, j |-> j])))
-        /\ cur' = IF Crashed(e) THEN EmptyState ELSE IF keeps THEN pre ELSE e.post
-        /\ chain' = IF Crashed(e) THEN <<>>
+        /\ cur' = IF Crashed(e) \/ e.act.a = "grow" THEN EmptyState ELSE IF keeps THEN pre ELSE e.post
+        /\ chain' = IF Crashed(e) \/ e.act.a = "grow" THEN <<>>
                     ELSE IF keeps THEN chain
                     ELSE (IF first THEN <<[st |-> e.pre, done |-> FALSE]>> ELSE chain)
                          \o <<[st |-> e.post, done |-> IF HasF(e, "ret") /\ e.act.a = "step" THEN e.ret ELSE FALSE]>>
